@@ -132,6 +132,7 @@ type mstream struct {
 
 	// state of the current lifetime
 	identified []string // sets that kept their identity, in arrival order
+	identSet   map[string]bool
 	pts        map[string]*mpoint
 	reported   map[string]float64 // precomputed sum, delta: what the previous collection reported
 
@@ -446,17 +447,15 @@ func (s *mstream) measure(setIdx int, set []vk.KV, rawKey string, v float64) {
 
 	key := fk
 	if s.limit > 0 {
-		known := false
-		for _, id := range s.identified {
-			if id == fk {
-				known = true
-				break
-			}
-		}
+		known := s.identSet[fk]
 		switch {
 		case known:
 		case len(s.identified) < s.limit-1:
 			s.identified = append(s.identified, fk)
+			if s.identSet == nil {
+				s.identSet = map[string]bool{}
+			}
+			s.identSet[fk] = true
 			if fk == overflowKey {
 				s.ovfSlot = true
 			}
@@ -527,7 +526,7 @@ func (s *mstream) collect() (exp map[string]expPoint, scopeSum float64, scopeCou
 	}
 	if !s.persistent() {
 		s.pts = map[string]*mpoint{}
-		s.identified = nil
+		s.identified, s.identSet = nil, nil
 		s.scopeSum, s.scopeCount = 0, 0
 	}
 	return exp, scopeSum, scopeCount
@@ -548,10 +547,71 @@ func opValue(op Op, float bool) float64 {
 	return float64(op.K)
 }
 
+// parseLimit is the documented reading of OTEL_GO_X_CARDINALITY_LIMIT
+// (sdk/metric/internal/x: "set the variable to the integer limit value";
+// README: "The value must be an integer value. All other values are ignored.
+// If the value set is less than or equal to 0, no limit will be applied"):
+// an optional sign followed by decimal digits is that integer, whatever the
+// number of leading zeros; everything else (and unset / empty) is ignored.
+// Written out by hand, not with strconv, so that the reference does not share
+// the implementation's parser. Values beyond the int range saturate: such a
+// limit can never be reached by a generated history, which is also what
+// "ignored" looks like.
 func parseLimit(env string) int {
-	n, err := strconv.Atoi(env)
-	if err != nil || n <= 0 {
-		return 0 // documented: unset, unparsable or <= 0 disables the limit
+	s := env
+	neg := false
+	if s != "" && (s[0] == '+' || s[0] == '-') {
+		neg = s[0] == '-'
+		s = s[1:]
+	}
+	if s == "" {
+		return 0
+	}
+	const huge = 1 << 40
+	n := 0
+	for i := 0; i < len(s); i++ {
+		if s[i] < '0' || s[i] > '9' {
+			return 0 // not an integer: ignored
+		}
+		if n < huge {
+			n = n*10 + int(s[i]-'0')
+		}
+	}
+	if neg || n <= 0 {
+		return 0 // documented: <= 0 disables the limit
 	}
 	return n
+}
+
+// envSpelling classifies how the limit is written in the environment.
+func envSpelling(env string) string {
+	if env == "" {
+		return "unset"
+	}
+	l := parseLimit(env)
+	digits := env
+	sign := ""
+	if digits[0] == '+' || digits[0] == '-' {
+		sign, digits = digits[:1], digits[1:]
+	}
+	allDigits := digits != ""
+	for i := 0; i < len(digits); i++ {
+		allDigits = allDigits && digits[i] >= '0' && digits[i] <= '9'
+	}
+	switch {
+	case !allDigits:
+		return "not_an_integer(ignored)"
+	case l == 0:
+		if env == "0" || env == "-1" {
+			return "non_positive/canonical"
+		}
+		return "non_positive/other_spelling"
+	case len(digits) > 1 && digits[0] == '0' && sign == "+":
+		return "plus_sign_and_leading_zeros"
+	case len(digits) > 1 && digits[0] == '0':
+		return "leading_zeros"
+	case sign == "+":
+		return "plus_sign"
+	}
+	return "canonical"
 }
